@@ -42,7 +42,10 @@ fn cbor_enc<T: serde::Serialize>(v: &T) -> Vec<u8> {
 
 /// Every decoder the node/client applies to bytes from the network; must return, never panic.
 fn run_decoders(bytes: &[u8]) {
-    let r = rec(bytes.to_vec());
+    // the key of a record from the network is as hostile as its value: lengths 0, 1, 2, 3, 33, 64 next to the usual 32
+    let klen = [32usize, 32, 0, 1, 2, 3, 33, 64][(h64(bytes) % 8) as usize];
+    let kb: Vec<u8> = crate::refmetric::sha(bytes).iter().cycle().take(klen).cloned().collect();
+    let r = gen::record(RecordKey::from(kb), bytes.to_vec());
     let _ = RecordHeader::from_record(&r);
     let _ = RecordHeader::try_deserialize(bytes);
     // the helper must fail exactly when the header does not decode, and otherwise tell whether the kind is Chunk
@@ -233,7 +236,8 @@ fn golden_corpus() -> BTreeMap<String, (Vec<u8>, Option<Vec<u8>>)> {
     let mut i = 0;
     while i < 48 {
         let s = random_response_with(&mut rng2, true);
-        if !format!("{s:?}").contains("Err(") {
+        // (formatting is the harness' own convenience here; a formatter that panics must not take the check down)
+        if !catch(|| format!("{s:?}")).map(|t| t.contains("Err(")).unwrap_or(true) {
             continue;
         }
         out.insert(format!("response/e{i:02}"), (rmp_serde::to_vec(&s).expect("rmp"), Some(cbor_enc(&s))));
@@ -454,7 +458,15 @@ impl C12 {
         let n = cx.rng.gen_range(0..400);
         let counter = cx.rng.gen_range(0..u64::MAX);
         let data = gen::bytes(&mut cx.rng, n);
-        let pad = gen::pad(&owner, counter, &data, cx.rng.gen());
+        // every shape a scratchpad value can take: signed with a payload, and (one case in four) as created - never
+        // signed, no payload - or unsigned with a payload
+        let (pad, unsigned) = match cx.rng.gen_range(0..8) {
+            0 => (Scratchpad::new(owner.public_key(), cx.rng.gen()), true),
+            _ => (gen::pad(&owner, counter, &data, cx.rng.gen()), false),
+        };
+        if unsigned {
+            cx.count("roundtrip:unsigned-scratchpads");
+        }
         encodings.push(roundtrip!(cx, pad.clone(), RecordKind::Scratchpad, Scratchpad, "scratchpad"));
         encodings.push(roundtrip!(cx, (proof.clone(), pad.clone()), RecordKind::ScratchpadWithPayment, (ProofOfPayment, Scratchpad), "scratchpad_with_payment"));
         let txs: Vec<Transaction> = (0..cx.rng.gen_range(1..4)).map(|_| gen::transaction(&mut cx.rng, &owner)).collect();
